@@ -136,7 +136,10 @@ func oracleC18(f *sessionFam, w *World, res *Result) []Violation {
 		}
 		for _, m := range w.sent[a] {
 			k := kindPrefix(m.Binary) + string(m.Data)
-			accepted := (m.State == "open" || m.State == "opening") && m.Seq > attached
+			if m.Seq < attached {
+				continue // the application's packetCreate listener was not registered yet
+			}
+			accepted := m.State == "open" || m.State == "opening"
 			n := created[k]
 			if accepted && m.Seq < closeSeq {
 				if n > 1 {
